@@ -184,13 +184,28 @@ class IntervalDelegation(Sub):
     rule = "Interval arithmetic delegates to its elapsed Duration: same results as timedelta arithmetic on the elapsed time; non-trivial: negative interval"
 
     def strategy(self, ctx):
-        return st.fixed_dictionaries({"u1": S.uni(0, 4 * 10**15), "span": S.uni(-10**14, 10**14), "b": td_slots, "n": scalars_i})
+        zone_u = S.zone_and_instant()
+        return st.fixed_dictionaries({"u1": S.uni(0, 4 * 10**15), "span": st.one_of(S.uni(-10**14, 10**14), S.uni(-40 * 86400 * US, 40 * 86400 * US)), "b": td_slots,
+                                      "n": scalars_i, "zu": st.one_of(st.none(), zone_u, zone_u)})
 
     def check(self, case, ctx):
-        s = pendulum.datetime(1970, 1, 1).add(microseconds=case["u1"] % US).add(seconds=case["u1"] // US)
-        e = s.add(microseconds=case["span"] % US).add(seconds=case["span"] // US)
+        from vf import oracle_tz as T
+        if case["zu"] is not None:
+            # endpoints in a named zone, typically on different local days around a UTC-offset change: the elapsed time, not the
+            # wall-clock breakdown, is what the arithmetic must use
+            z, u1 = case["zu"]
+            u2 = S.clamp_u(u1 + case["span"])
+            s, e = pendulum.instance(T.render(u1, z)), pendulum.instance(T.render(u2, z))
+            if (T.naive_us(e) > T.naive_us(s)) != (u2 > u1) and u1 != u2:
+                raise Skip("wall order differs from instant order (K-C05-1 region)")
+            span = u2 - u1
+        else:
+            s = pendulum.datetime(1970, 1, 1).add(microseconds=case["u1"] % US).add(seconds=case["u1"] // US)
+            e = s.add(microseconds=case["span"] % US).add(seconds=case["span"] // US)
+            span = case["span"]
         iv = e - s
-        a = D.timedelta(microseconds=case["span"])
+        a = D.timedelta(microseconds=span)
+        case = dict(case, span=span)
         b = mk_td(case["b"])
         n = case["n"]
         ctxd = {"span_us": case["span"], "b": raw(b), "n": n}
@@ -206,7 +221,9 @@ class IntervalDelegation(Sub):
             same("interval % timedelta", iv % b, a % b, ctxd)
             same("divmod(interval, timedelta)", divmod(iv, b), divmod(a, b), ctxd)
             req(abs(iv / b - a / b) <= abs(a / b) * 1e-15, "interval / timedelta differs", got=iv / b, expected=a / b)
-        return case["span"] < 0, "neg" if case["span"] < 0 else "pos"
+        req(iv == a and a == iv, "an Interval does not compare equal to the timedelta of its elapsed time", span_us=span)
+        same(  "interval.as_duration()", iv.as_duration(), a, ctxd)
+        return case["span"] < 0 or case["zu"] is not None, ("zone" if case["zu"] is not None else "utc") + (":neg" if case["span"] < 0 else ":pos")
 
 
 SUBS = [Binary(), Scalar(), YearsMonths(), IntervalDelegation()]
